@@ -1227,6 +1227,15 @@ class EventBus:
             # Cancel the monitor task on timeout too
             monitor_task.cancel()
 
+            current_task = asyncio.current_task()
+            if current_task is not None and not current_task.cancelling():
+                # Nobody cancelled this task: the handler raised CancelledError by itself (typically by awaiting a task of its own
+                # that was cancelled). That is the handler's error like any other - it must not be mistaken for a cancellation
+                # of the bus, which would silently end the run loop and leave every later event unprocessed
+                event.event_result_update(handler=handler, eventbus=self, error=e)
+                logger.error(f'❌ {self} Event handler {get_handler_name(handler)}({event}) raised CancelledError itself')
+                return None
+
             # Create a RuntimeError for timeout
             # TODO: figure out why it breaks when we try to switch to InterruptedError instead of asyncio.CancelledError
             handler_interrupted_error = asyncio.CancelledError(
